@@ -99,6 +99,8 @@ func c19TmpDir() string {
 	return d
 }
 
+func tagOf(f reflect.StructField) string { return f.Tag.Get("rdp") }
+
 func c19Values(f reflect.StructField) []any {
 	switch f.Type.Kind() {
 	case reflect.Bool:
@@ -106,14 +108,15 @@ func c19Values(f reflect.StructField) []any {
 	case reflect.Int:
 		return []any{0, 1, -1, 2147483647, 3}
 	case reflect.String:
-		return []any{"", "x", "a:b:c", "ünï-codé 漢字", "#x", "false", "i:1", strings.Repeat("p", 4000), "with space inside", "C:\\Program Files\\app.exe /arg:1"}
+		return []any{"", "x", "a:b:c", "ünï-codé 漢字", "#x", "false", "i:1", strings.Repeat("p", 4000), "with space inside", "C:\\Program Files\\app.exe /arg:1",
+			"%SystemRoot%\\explorer.exe", "100%sales %d %s %v %%", "$HOME ${x} $1 $$", "\"quoted\" 'single'", "{{ username }} {{ token }}", "tab\tinside"}
 	}
 	return nil
 }
 
 func c19(env *Env, rep *Report) {
-	rep.Rule = "(1) builder: every single-field deviation and every pair of deviations of the ~60 settings from their defaults over per-type domains (bool: both; int: {0,1,-1,2^31-1,3}; string: {empty, x, a:b:c, non-ASCII, #x, false, i:1, 4000 chars, inner blank, a Windows command line}) (quick: pairs restricted to every 5th combination): String() must be CRLF-terminated name:type:value lines without duplicates (independent grammar), and NewBuilderFromFile(write(String())).Settings must equal the builder's settings; " +
-		"(2) templates: each single-field deviation written as a template and served through the real web.Handler.HandleDownload: known template settings that differ from the defaults are kept unless gateway-controlled, forced settings carry the gateway's values, and the served file round-trips; " +
+	rep.Rule = "(1) builder: every single-field deviation and every pair of deviations of the ~60 settings from their defaults over per-type domains (bool: both; int: {0,1,-1,2^31-1,3}; string: {empty, x, a:b:c, non-ASCII, #x, false, i:1, 4000 chars, inner blank, a Windows command line, percent signs / format verbs, dollar forms, quotes, template placeholders, an inner tab}) (quick: pairs restricted to every 5th combination): String() must be CRLF-terminated name:type:value lines without duplicates (independent grammar), and NewBuilderFromFile(write(String())).Settings must equal the builder's settings; " +
+		"(2) templates: each single-field deviation written as a template and served through the real web.Handler.HandleDownload under the four combinations of {suppress user name, split domain}: known template settings that differ from the defaults are kept unless gateway-controlled, forced settings carry the gateway's values, and the served file round-trips; " +
 		"(3) parser: every string of length <= 5 (thorough: 6) over {a : i s b blank CR LF # 1 -} against a reference parser (accept/reject and resulting map), lines of 4095/4096/4097 bytes; (4) parse(marshal(m)) == m, and the output of the previous call is unchanged after the next one for maps of 1..3 settings of ints and strings. distinct_nontrivial = distinct cases evaluated."
 	rep.Assumptions = append(rep.Assumptions, "string values free of CR/LF and of leading/trailing blanks, setting names free of ':' (the property's domain)", "temporary files live in the check's build directory")
 	dir := c19TmpDir()
@@ -180,65 +183,98 @@ func c19(env *Env, rep *Report) {
 	rep.outcome("builder-pairs")
 	// (2) templates through HandleDownload
 	gwURL, _ := url.Parse("https://gw.example:8443")
-	forced := map[string]bool{"GatewayHostname": true, "FullAddress": true, "GatewayCredentialsSource": true, "GatewayAccessToken": true, "GatewayCredentialMethod": true, "GatewayUsageMethod": true, "Username": true, "Domain": true}
+	forcedAll := map[string]bool{"GatewayHostname": true, "FullAddress": true, "GatewayCredentialsSource": true, "GatewayAccessToken": true, "GatewayCredentialMethod": true, "GatewayUsageMethod": true, "Username": true, "Domain": true}
 	tpl := filepath.Join(dir, "template.rdp")
-	for i := 0; i < st.NumField(); i++ {
-		for _, v := range c19Values(st.Field(i)) {
-			n++
-			if !env.mine(n) {
-				continue
-			}
-			distinct++
-			rep.add("executions", 1)
-			tb := rdp.NewBuilder()
-			set(tb, i, v)
-			os.WriteFile(tpl, []byte(tb.String()), 0o644)
-			hnd := (&web.Config{HostSelection: "roundrobin", Hosts: []string{"target.example:3389"}, GatewayAddress: gwURL, TemplateFile: tpl,
-				PAATokenGenerator: c19Token}).NewHandler()
-			id := identity.NewUser()
-			id.SetUserName("alice@corp.example")
-			id.SetAuthenticated(true)
-			r := identity.AddToRequestCtx(id, httptest.NewRequest("GET", "https://gw.example/connect", nil))
-			rec := httptest.NewRecorder()
-			hnd.HandleDownload(rec, r)
-			what := fmt.Sprintf("template %s=%.40q", st.Field(i).Name, fmt.Sprint(v))
-			if rec.Code != http.StatusOK {
-				rep.violate("C19/template-download-failed", fmt.Sprintf("%s: status %d %s", what, rec.Code, rec.Body.String()), map[string]any{"noreplay": true})
-				continue
-			}
-			body := rec.Body.String()
-			lines, why := refRdpLines(body)
-			if why != "" {
-				rep.violate("C19/served-file-not-well-formed", what+": "+why, map[string]any{"noreplay": true})
-				continue
-			}
-			got := map[string]string{}
-			for _, l := range lines {
-				got[l.Name] = l.Value
-			}
-			want := map[string]string{"full address": "target.example:3389", "gatewayhostname": "gw.example:8443", "gatewaycredentialssource": "5", "gatewayaccesstoken": "TOKEN(alice@corp.example,target.example:3389)", "gatewayprofileusagemethod": "1", "gatewayusagemethod": "1", "username": "alice@corp.example"}
-			for k, wv := range want {
-				if got[k] != wv {
-					rep.violate("C19/forced-setting-wrong/"+k, fmt.Sprintf("%s: %s is %q, want %q", what, k, got[k], wv), map[string]any{"noreplay": true})
+	type dlOpt struct{ noUser, split bool }
+	for _, opt := range []dlOpt{{false, false}, {false, true}, {true, false}, {true, true}} {
+		for i := 0; i < st.NumField(); i++ {
+			for _, v := range c19Values(st.Field(i)) {
+				n++
+				if !env.mine(n) {
+					continue
 				}
-			}
-			// the template's setting is kept when it is not gateway-controlled and differs from the default
-			if !forced[st.Field(i).Name] {
-				def := reflect.ValueOf(rdp.NewBuilder().Settings).Field(i).Interface()
-				if !reflect.DeepEqual(def, v) {
-					tag := st.Field(i).Tag.Get("rdp")
-					wantV := fmt.Sprint(v)
-					if bv, ok := v.(bool); ok {
-						wantV = map[bool]string{true: "1", false: "0"}[bv]
+				distinct++
+				rep.add("executions", 1)
+				tb := rdp.NewBuilder()
+				set(tb, i, v)
+				os.WriteFile(tpl, []byte(tb.String()), 0o644)
+				hnd := (&web.Config{HostSelection: "roundrobin", Hosts: []string{"target.example:3389"}, GatewayAddress: gwURL, TemplateFile: tpl,
+					RdpOpts: web.RdpOpts{NoUsername: opt.noUser, SplitUserDomain: opt.split}, PAATokenGenerator: c19Token}).NewHandler()
+				id := identity.NewUser()
+				id.SetUserName("alice@corp.example")
+				id.SetAuthenticated(true)
+				r := identity.AddToRequestCtx(id, httptest.NewRequest("GET", "https://gw.example/connect", nil))
+				rec := httptest.NewRecorder()
+				hnd.HandleDownload(rec, r)
+				what := fmt.Sprintf("template %s=%.40q (suppress user name=%v, split domain=%v)", st.Field(i).Name, fmt.Sprint(v), opt.noUser, opt.split)
+				forced := map[string]bool{}
+				for k, b := range forcedAll {
+					forced[k] = b
+				}
+				if opt.noUser {
+					// user name and domain are the administrator's business then
+					delete(forced, "Username")
+					delete(forced, "Domain")
+				}
+				if rec.Code != http.StatusOK {
+					rep.violate("C19/template-download-failed", fmt.Sprintf("%s: status %d %s", what, rec.Code, rec.Body.String()), map[string]any{"noreplay": true})
+					continue
+				}
+				body := rec.Body.String()
+				lines, why := refRdpLines(body)
+				if why != "" {
+					rep.violate("C19/served-file-not-well-formed", what+": "+why, map[string]any{"noreplay": true})
+					continue
+				}
+				got := map[string]string{}
+				for _, l := range lines {
+					got[l.Name] = l.Value
+				}
+				want := map[string]string{"full address": "target.example:3389", "gatewayhostname": "gw.example:8443", "gatewaycredentialssource": "5", "gatewayaccesstoken": "TOKEN(alice@corp.example,target.example:3389)", "gatewayprofileusagemethod": "1", "gatewayusagemethod": "1"}
+				if opt.split {
+					// the token is minted for the name without its domain part (what the token must carry is C12's)
+					want["gatewayaccesstoken"] = "TOKEN(alice,target.example:3389)"
+				}
+				switch {
+				case opt.noUser:
+					// nothing of the session's user name may be written; what the template says stays
+					for _, k := range []string{"username", "domain"} {
+						tv := ""
+						if tagOf(st.Field(i)) == k {
+							tv = fmt.Sprint(v)
+						}
+						if got[k] != tv {
+							rep.violate("C19/user-name-or-domain-written-although-suppressed/"+k, fmt.Sprintf("%s: %s is %q, the template says %q", what, k, got[k], tv), map[string]any{"noreplay": true})
+						}
 					}
-					if gv, ok := got[tag]; !ok || gv != wantV {
-						rep.violate("C19/template-setting-lost/"+st.Field(i).Type.Kind().String(), fmt.Sprintf("%s: served file has %s=%.40q (present=%v), template had %.40q", what, tag, gv, ok, wantV), map[string]any{"noreplay": true})
+				case opt.split:
+					want["username"], want["domain"] = "alice", "corp.example"
+				default:
+					want["username"] = "alice@corp.example"
+				}
+				for k, wv := range want {
+					if got[k] != wv {
+						rep.violate("C19/forced-setting-wrong/"+k, fmt.Sprintf("%s: %s is %q, want %q", what, k, got[k], wv), map[string]any{"noreplay": true})
 					}
 				}
-			}
-			os.WriteFile(tmp, []byte(body), 0o644)
-			if _, err := rdp.NewBuilderFromFile(tmp); err != nil {
-				rep.violate("C19/served-file-rejected-by-reader", what+": "+err.Error(), map[string]any{"noreplay": true})
+				// the template's setting is kept when it is not gateway-controlled and differs from the default
+				if !forced[st.Field(i).Name] {
+					def := reflect.ValueOf(rdp.NewBuilder().Settings).Field(i).Interface()
+					if !reflect.DeepEqual(def, v) {
+						tag := st.Field(i).Tag.Get("rdp")
+						wantV := fmt.Sprint(v)
+						if bv, ok := v.(bool); ok {
+							wantV = map[bool]string{true: "1", false: "0"}[bv]
+						}
+						if gv, ok := got[tag]; !ok || gv != wantV {
+							rep.violate("C19/template-setting-lost/"+st.Field(i).Type.Kind().String(), fmt.Sprintf("%s: served file has %s=%.40q (present=%v), template had %.40q", what, tag, gv, ok, wantV), map[string]any{"noreplay": true})
+						}
+					}
+				}
+				os.WriteFile(tmp, []byte(body), 0o644)
+				if _, err := rdp.NewBuilderFromFile(tmp); err != nil {
+					rep.violate("C19/served-file-rejected-by-reader", what+": "+err.Error(), map[string]any{"noreplay": true})
+				}
 			}
 		}
 	}
